@@ -11,7 +11,7 @@ use crate::prng::Rng;
 use crate::proc::{HResult, HostStats, Proc};
 use crate::scenario::{apply, fnv64, Obs, Op, Scenario, World};
 
-pub const KINDS: [&str; 12] = [
+pub const KINDS: [&str; 13] = [
     "entropy_reseed",
     "worker_restart",
     "process_restart",
@@ -24,6 +24,7 @@ pub const KINDS: [&str; 12] = [
     "pid_change",
     "env_noise",
     "address_slide",
+    "fs_wipe",
 ];
 
 /// the pinned tree panics on this one (C17's business); here it is history for other expansions
@@ -45,6 +46,7 @@ pub struct Cfg {
     pub pid_change: bool,
     pub env_noise: bool,
     pub address_slide: bool,
+    pub fs_wipe: bool,
     pub history_burst: bool,
     pub corpus_pct: u64,
 }
@@ -64,15 +66,29 @@ pub struct Plan {
 
 fn env_noise(rng: &mut Rng) -> Vec<(String, String)> {
     let mut env = vec![];
-    let cands: [(&str, &[&str]); 8] = [
+    let cands: [(&str, &[&str]); 22] = [
         ("SOURCE_DATE_EPOCH", &["0", "1700000000", "4102444800"]),
         ("LANG", &["C", "en_US.UTF-8", "tr_TR.UTF-8", "ja_JP.eucJP"]),
         ("LC_ALL", &["C", "POSIX", "de_DE.UTF-8"]),
-        ("HOME", &["/", "/nonexistent", "/root"]),
+        ("HOME", &["$SANDBOX/home", "$SANDBOX/home2", "$SANDBOX/nonexistent"]),
+        ("TMPDIR", &["$SANDBOX/tmp", "$SANDBOX/tmp2"]),
         ("TZ", &["UTC", "Asia/Tokyo", "America/Los_Angeles"]),
         ("CARGO_PKG_NAME", &["a", "educe", "zzz"]),
+        ("CARGO_CRATE_NAME", &["a", "my_crate", "zzz"]),
+        ("CARGO_PKG_VERSION", &["0.1.0", "12.3.4-beta.1"]),
+        ("CARGO_MANIFEST_DIR", &["$SANDBOX/ws/a", "$SANDBOX/ws/b"]),
+        ("CARGO_TARGET_DIR", &["$SANDBOX/target", "$SANDBOX/target2"]),
+        ("OUT_DIR", &["$SANDBOX/target/out-1", "$SANDBOX/target/out-2"]),
+        ("PROFILE", &["debug", "release"]),
+        ("OPT_LEVEL", &["0", "3"]),
+        ("DEBUG", &["true", "false"]),
         ("RUSTFLAGS", &["", "-Cdebuginfo=2", "--cfg foo"]),
-        ("TMPDIR", &["/tmp", "/var/tmp"]),
+        ("TERM", &["dumb", "xterm-256color"]),
+        ("NO_COLOR", &["1", ""]),
+        ("USER", &["root", "builder", "nobody"]),
+        ("HOSTNAME", &["ci-1", "laptop"]),
+        ("CI", &["true", "1"]),
+        ("VERIF_CWD", &["cwd", "cwd-b", "ws/a"]),
     ];
     for (k, vs) in cands {
         if rng.chance(1, 2) {
@@ -82,6 +98,9 @@ fn env_noise(rng: &mut Rng) -> Vec<(String, String)> {
     if rng.chance(1, 2) {
         env.push((format!("VERIF_NOISE_{}", rng.below(1000)), format!("{}", rng.next_u64())));
     }
+    // names nobody listed: the getenv seam reports a per-process subset of unset names as set
+    env.push(("VERIF_ENV_SEED".to_string(), (1 + rng.below(1 << 32)).to_string()));
+    env.push(("VERIF_NCPU".to_string(), rng.pick(&[1u64, 2, 4, 8, 16, 64, 256]).to_string()));
     env
 }
 
@@ -105,6 +124,7 @@ fn swarm(rng: &mut Rng, thorough: bool) -> Cfg {
         pid_change: on(rng),
         env_noise: on(rng),
         address_slide: on(rng),
+        fs_wipe: on(rng),
         history_burst: on(rng),
         corpus_pct: *rng.pick(&[0, 30, 60, 60, 90, 100]),
     }
@@ -221,7 +241,8 @@ pub fn plan(seed: u64, corpus: &[Input], thorough: bool) -> Plan {
             if cfg.address_slide {
                 // simulated ASLR: page-aligned shift of the mmap area (0..1 GiB) and of the main heap
                 bump("address_slide");
-                env.push(("VERIF_SLIDE_MMAP".to_string(), (rng.below(262_144) * 4096).to_string()));
+                // (worker malloc arenas are 64 MiB aligned: whole multiples move them, the rest moves stacks)
+                env.push(("VERIF_SLIDE_MMAP".to_string(), (rng.below(24) * (64 << 20) + rng.below(16_384) * 4096).to_string()));
                 env.push(("VERIF_SLIDE_BRK".to_string(), (rng.below(256) * 4096).to_string()));
             }
             let wi = worlds.len();
@@ -271,6 +292,11 @@ pub fn plan(seed: u64, corpus: &[Input], thorough: bool) -> Plan {
             }
             worlds[wi].ops.push(Op::Clock { s: clock_s, ns });
             order.push(wi);
+        }
+        if cfg.fs_wipe && rng.chance(1, 20) {
+            worlds[wi].ops.push(Op::FsWipe);
+            order.push(wi);
+            bump("fs_wipe");
         }
         if cfg.heap_fragment && rng.chance(1, 5) {
             let n = rng.range(1, 400);
@@ -371,6 +397,7 @@ pub fn is_nontrivial(out: &str) -> bool {
 pub fn execute_plan(plan: &Plan) -> HResult<RunResult> {
     let sc = &plan.scenario;
     let mut procs: BTreeMap<usize, Proc> = BTreeMap::new();
+    let sandbox = crate::scenario::Sandbox::new();
     let mut cursor: Vec<usize> = vec![0; sc.worlds.len()];
     let mut res = RunResult {
         events: vec![],
@@ -395,7 +422,7 @@ pub fn execute_plan(plan: &Plan) -> HResult<RunResult> {
         cursor[wi] += 1;
         let op = &world.ops[oi];
         if !procs.contains_key(&wi) {
-            procs.insert(wi, Proc::start(&world.env)?);
+            procs.insert(wi, Proc::start(&world.env, Some(&sandbox.dir))?);
         }
         let p = procs.get_mut(&wi).unwrap();
         res.ops_executed += 1;
@@ -441,6 +468,7 @@ pub fn execute_plan(plan: &Plan) -> HResult<RunResult> {
                     },
                 }
             },
+            Op::FsWipe => sandbox.wipe(),
             other => {
                 apply(p, &sc.inputs, other)?;
             },
